@@ -97,7 +97,7 @@ func cmdAllotScale(args []string) {
 		vars := copyVars(c.RawVars)
 		vars["amt"] = asset + " " + bigAmt.String()
 		p := numscript.Parse(c.Text)
-		o := runParsed(context.Background(), p, vars, copyStore{bal: c.Bal, meta: c.Meta}, false)
+		o := runParsed(context.Background(), p, vars, caseStore(c.ID, c.Bal, c.Meta), false)
 		equal := o.St == "ok" && len(o.Post) == len(er.outcome.Post)
 		bigPost := []any{}
 		if o.St == "ok" {
@@ -159,12 +159,26 @@ func liftNumbers(x any, c *Case, counter *int) {
 }
 
 type bigStore struct {
-	bal  map[string]map[string]*big.Int
-	meta map[string]map[string]string
+	bal   map[string]map[string]*big.Int
+	meta  map[string]map[string]string
+	exact bool // answer exactly what is asked (every balance that matters must have been requested, however large the amounts)
 }
 
-func (s bigStore) GetBalances(context.Context, numscript.BalanceQuery) (numscript.Balances, error) {
+func (s bigStore) GetBalances(_ context.Context, q numscript.BalanceQuery) (numscript.Balances, error) {
 	out := numscript.Balances{}
+	if s.exact {
+		for a, assets := range q {
+			out[a] = numscript.AccountBalance{}
+			for _, as := range assets {
+				v := new(big.Int)
+				if x := s.bal[a][as]; x != nil {
+					v.Set(x)
+				}
+				out[a][as] = v
+			}
+		}
+		return out, nil
+	}
 	for a, m := range s.bal {
 		out[a] = numscript.AccountBalance{}
 		for as, v := range m {
@@ -247,7 +261,7 @@ func cmdScaleSem(args []string) {
 			}
 		}
 		p := numscript.Parse(c.Text)
-		o := runParsed(context.Background(), p, vars, bigStore{bal: bal, meta: c.Meta}, false)
+		o := runParsed(context.Background(), p, vars, bigStore{bal: bal, meta: c.Meta, exact: c.ID%2 == 1}, false)
 		equal := o.St == er.outcome.St && len(o.Post) == len(er.outcome.Post)
 		bigPost := []any{}
 		for j, po := range o.Post {
